@@ -103,6 +103,9 @@ func FindNaluTypes(sample []byte) []NaluType {
 		pos += 4
 		naluType := GetNaluType(sample[pos])
 		naluList = append(naluList, naluType)
+		if uint64(pos)+uint64(naluLength) > uint64(length) {
+			break // NALU length field points outside the sample
+		}
 		pos += naluLength
 	}
 	return naluList
@@ -121,6 +124,9 @@ func FindNaluTypesUpToFirstVideoNalu(sample []byte) []NaluType {
 		pos += 4
 		naluType := GetNaluType(sample[pos])
 		naluList = append(naluList, naluType)
+		if uint64(pos)+uint64(naluLength) > uint64(length) {
+			break // NALU length field points outside the sample
+		}
 		pos += naluLength
 		if IsVideoNaluType(naluType) {
 			break // Video has started
@@ -147,6 +153,9 @@ func ContainsNaluType(sample []byte, specificNaluType NaluType) bool {
 		naluType := GetNaluType(sample[pos])
 		if naluType == specificNaluType {
 			return true
+		}
+		if uint64(pos)+uint64(naluLength) > uint64(length) {
+			break // NALU length field points outside the sample
 		}
 		pos += naluLength
 	}
@@ -198,9 +207,12 @@ func GetParameterSets(sample []byte) (vps, sps, pps [][]byte) {
 	sampleLength := uint32(len(sample))
 	var pos uint32 = 0
 naluLoop:
-	for pos < sampleLength {
+	for uint64(pos)+4 < uint64(sampleLength) {
 		naluLength := binary.BigEndian.Uint32(sample[pos : pos+4])
 		pos += 4
+		if uint64(pos)+uint64(naluLength) > uint64(sampleLength) {
+			break // NALU length field points outside the sample
+		}
 		switch naluType := GetNaluType(sample[pos]); {
 		case naluType == NALU_VPS:
 			vps = append(vps, sample[pos:pos+naluLength])
